@@ -120,10 +120,21 @@ def one_state(a, seed, fname, unlisted=None, decor=None):
         if rnd.random() < 0.3:
             p.add_attribute("zzTemp", "x")
             p.remove_attribute("zzTemp")
+        extra_foreign = []
+        if decor == "more-foreign":
+            # the model has ONE foreign attribute; here two more follow it directly in insertion order (one error each)
+            if fname in p.attributes:
+                v0 = p.attributes[fname]
+                p.remove_attribute(fname)
+                p.add_attribute(fname, v0)
+            extra_foreign = [fname + "-too", "zzAnotherForeign"]
+            for x in extra_foreign:
+                p.add_attribute(x, "v")
         ff, craised, errs = c01.validate_both(unit, el, p)
         Node.store.clear()
         n += 1
         exp = collections.Counter((c, fname if s == "~foreignAttr" else s) for c, s in a["errs"])
+        exp.update(("ATTRIBUTE_UNRECOGNIZED", x) for x in extra_foreign)
         got = collections.Counter((e[0].name, e[3] if len(e) > 3 else None) for e in errs)
         replay = {"kind": "attrs", "unit": unit, "element": el, "attributes": want, "expected": sorted(exp.elements())}
         if craised is not None:
@@ -163,7 +174,7 @@ def w_states(items):
             n_, out_ = one_state(a, seed, fname)
             n += n_
             out += out_
-        for decor in ("prefix-unbound", "prefix-other-namespace", "below-metadata"):
+        for decor in ("prefix-unbound", "prefix-other-namespace", "below-metadata", "more-foreign"):
             n_, out_ = one_state(a, seed, FOREIGN_ATTR, decor=decor)
             n += n_
             out += [(k + ":" + decor, d_, r_) for (k, d_, r_) in out_]
